@@ -379,6 +379,19 @@ class StorageReplayer:
         if self.kind == 'file':
             ul = st.undoLog(0, 1000)
             obs['ulog'] = tuple(T.model(base64.decodebytes(d['id'] + b'\n')) for d in ul)
+        if 'itf' in mo:
+            obs['itf'] = {t: tuple(T.model(x.tid) for x in st.iterator(T.real(t))) for t in _fn(mo['itf'])}
+            obs['itt'] = {t: tuple(T.model(x.tid) for x in st.iterator(None, T.real(t))) for t in _fn(mo['itt'])}
+        if self.kind == 'file' and 'ulw' in mo:
+            m0 = METAS['m0']
+            obs['ulw'] = {}
+            for w, row in _fn(mo['ulw']).items():
+                obs['ulw'][w] = {}
+                for m in _fn(row):
+                    flt = None if m == '' else (lambda d: (d['user_name'], d['description']) == (m0[0], m0[1]) and
+                                                set(d) <= {'id', 'time', 'user_name', 'size', 'description'})
+                    ul = st.undoLog(w[0], w[1], flt)
+                    obs['ulw'][w][m] = tuple(T.model(base64.decodebytes(d['id'] + b'\n')) for d in ul)
         if self.kind == 'file' and 'linv' in mo:
             obs['linv'] = {n: tuple({'tid': T.model(t), 'oids': tuple(self.U(o) for o in oids)} for t, oids in st.lastInvalidations(n))
                            for n in mo['linv']}
@@ -400,6 +413,8 @@ class StorageReplayer:
         mo = norm(model_obs)
         if 'riter' in mo:
             mo = dict(mo, riter=_fn(mo['riter']))
+        if 'itf' in mo:
+            mo = dict(mo, itf=_fn(mo['itf']), itt=_fn(mo['itt']), ulw={w: _fn(row) for w, row in _fn(mo['ulw']).items()})
         if hist is not None and self.kind == 'file' and any(t['status'] == 'p' for t in hist):
             # Below a pack only what hangs on the record chain is promised (F17, DESIGN 6/C07): a packed
             # record has no previous-record pointer, so per oid the chain consists of the revisions in
@@ -434,6 +449,7 @@ class StorageReplayer:
             mo.pop('ulog', None)
             mo.pop('linv', None)
             mo.pop('riter', None)
+            mo.pop('ulw', None)
             mo['iter'] = tuple(dict(t, recs=tuple(sorted(t['recs'], key=lambda x: x['oid']))) for t in mo['iter'])
         if ltid is not None:
             mo = dict(mo, last=ltid)
